@@ -279,7 +279,7 @@ pub fn run(ctx: &Ctx) {
         crate::engine::Tier::Thorough => exhaustive(ctx, "exhaustive-3-entries-full", &FULL, 3, 512),
     }
     run_proptest(ctx, "random-lists", PtCfg::new(ctx.lanes, ctx.tier.pick(400, 8000)), || case_strategy(ctx.tier.pick(400, 3000)), check_case);
-    run_proptest(ctx, "random-big-lists", PtCfg { lanes: ctx.lanes, cases: ctx.tier.pick(2, 12), max_shrink: 64 }, || big_strategy(ctx.tier.pick(10_000, 100_000)), check_case);
+    run_proptest(ctx, "random-big-lists", PtCfg { lanes: ctx.lanes, cases: ctx.tier.pick(2, 12), max_shrink: 64 }, || big_strategy(ctx.tier.pick(40_000, 100_000)), check_case);
     for c in ["offset-elided", "offset-explicit-after-0", "offset-zero-after-0", "leaf-pointer", "varint>=5bytes", "codec-brotli", "codec-gzip", "codec-zstd", "writer-async"] {
         ctx.rec.floor(c, 20);
     }
